@@ -245,7 +245,7 @@ Palette(name) ==
     CASE name = "tiny" ->
            {Zero(N), One(N), Nat2W(2), MinusW(1), MinS, MaxS, Mixed, Mixed2}
       [] name = "small" ->
-           {Zero(N), One(N), Nat2W(2), Nat2W(3), Nat2W(8), Nat2W(31), Nat2W(Bits - 1), Nat2W(Bits),
+           {Zero(N), One(N), Nat2W(2), Nat2W(3), Nat2W(8), Nat2W(NBytes - 2), Nat2W(NBytes - 1), Nat2W(Bits - 1), Nat2W(Bits),
             MinusW(1), MinusW(2), MinS, MaxS, Pow2(Bits \div 4), Mixed, Mixed2, Stripes}
       [] name = "mid" ->
            {Zero(N), One(N), Nat2W(2), Nat2W(3), Nat2W(7), Nat2W(8), Nat2W(NBytes - 2), Nat2W(NBytes - 1), Nat2W(NBytes),
